@@ -47,6 +47,36 @@ fn cached_inners(spec: &TreeSpec, out: &mut Vec<TreeSpec>) {
   }
 }
 
+/// Arithmetic-overflow panics in position bookkeeping only exist because the
+/// harness builds with overflow checks; a shipped build wraps and reports a
+/// wrong position instead. They are therefore judged like a positional
+/// mismatch of a map / stream call, not like a crash.
+pub fn is_overflow_panic(m: &str) -> bool {
+  m.contains("with overflow")
+}
+
+pub fn is_positional_op(k: &OpKind) -> bool {
+  match k {
+    OpKind::Map { .. } | OpKind::Stream { .. } => true,
+    OpKind::CloneThen { then } => is_positional_op(then),
+    _ => false,
+  }
+}
+
+/// Does the tree contain a composite (ReplaceSource with replacements,
+/// ConcatSource with several children) above a CachedSource?
+pub fn composite_over_cache(o: &TreeSpec) -> bool {
+  o.contains(&|n| match n {
+    TreeSpec::Replace { inner, calls } if !calls.is_empty() => {
+      inner.contains(&|m| matches!(m, TreeSpec::Cached { .. }))
+    }
+    TreeSpec::Concat { children, .. } if children.len() >= 2 => {
+      children.iter().any(|c| c.contains(&|m| matches!(m, TreeSpec::Cached { .. })))
+    }
+    _ => false,
+  })
+}
+
 fn canon_is_empty(c: &Canon) -> bool {
   match c {
     Canon::Full(l) => l.iter().all(|r| r.is_empty()),
@@ -188,6 +218,7 @@ pub fn check_strict(
     stats: Default::default(),
     tail: vec![],
     unsafe_fails: vec![],
+    self_deadlocks: vec![],
   };
 
   // ---- gates -------------------------------------------------------------
@@ -386,6 +417,14 @@ pub fn check_strict(
   }
   let aborted_run = outcome.stats.abort.is_some();
 
+  if !outcome.self_deadlocks.is_empty() {
+    violations.push(Violation {
+      kind: "deadlock".into(),
+      op_class: "schedule".into(),
+      detail: format!("after the history a single-threaded call waits forever for a lock: {:?}", outcome.self_deadlocks),
+    });
+  }
+
   // A composite (ReplaceSource with replacements, ConcatSource with several
   // children) above a CachedSource sees different *chunk boundaries*
   // depending on whether the cache streams first-hand or replays from its
@@ -394,21 +433,7 @@ pub fn check_strict(
   // on those boundaries (ReplaceSource re-splitting a line, ConcatSource's
   // closing segment). Attribution-only differences of such composites are a
   // recorded finding (DESIGN.md 7), not decided here.
-  let replace_over_cache: Vec<bool> = scn
-    .objects
-    .iter()
-    .map(|o| {
-      o.contains(&|n| match n {
-        TreeSpec::Replace { inner, calls } if !calls.is_empty() => {
-          inner.contains(&|m| matches!(m, TreeSpec::Cached { .. }))
-        }
-        TreeSpec::Concat { children, .. } if children.len() >= 2 => {
-          children.iter().any(|c| c.contains(&|m| matches!(m, TreeSpec::Cached { .. })))
-        }
-        _ => false,
-      })
-    })
-    .collect();
+  let replace_over_cache: Vec<bool> = scn.objects.iter().map(composite_over_cache).collect();
   let any_replace_over_cache = replace_over_cache.iter().any(|b| *b);
   let mut mismatch = |violations: &mut Vec<Violation>, counters: &mut Counters, class: &str, attribution_only: bool, detail: String| {
     if attribution_only && any_replace_over_cache && (class == "map" || class == "stream" || class == "clone") {
@@ -450,13 +475,27 @@ pub fn check_strict(
       }
       let who = format!("T{} op{} {} on object {}", t, i, op.kind.label(), op.obj);
       if let Answer::Panicked(m) = a {
-        if !aborted_run {
-          violations.push(Violation {
-            kind: if m.contains("rspack_sources_verif: precondition") { "precondition".into() } else { "panic".into() },
-            op_class: op.kind.class().into(),
-            detail: format!("{} panicked although the same call on a cold value returns: {}", who, m),
-          });
+        if aborted_run {
+          continue;
         }
+        if is_overflow_panic(m) && is_positional_op(&op.kind) {
+          let eobj = expectation(mode, op).obj;
+          if !gated && ascii[op.obj] && ascii[eobj] {
+            mismatch(
+              &mut violations,
+              &mut counters,
+              op.kind.class(),
+              true,
+              format!("{} overflows its position arithmetic (a wrong position in a build without overflow checks) although the same call on a cold value returns: {}", who, m),
+            );
+          }
+          continue;
+        }
+        violations.push(Violation {
+          kind: if m.contains("rspack_sources_verif: precondition") { "precondition".into() } else { "panic".into() },
+          op_class: op.kind.class().into(),
+          detail: format!("{} panicked although the same call on a cold value returns: {}", who, m),
+        });
         continue;
       }
       let e = &expected[t][i];
@@ -527,6 +566,19 @@ pub fn check_strict(
         }
         let who = format!("after the history, {} on object {}", TAIL_OPS[k].label(), o);
         if let Answer::Panicked(m) = a {
+          if is_overflow_panic(m) && is_positional_op(&TAIL_OPS[k]) {
+            let eobj = expectation(mode, &top).obj;
+            if !gated && ascii[o] && ascii[eobj] {
+              mismatch(
+                &mut violations,
+                &mut counters,
+                TAIL_OPS[k].class(),
+                true,
+                format!("{} overflows its position arithmetic (a wrong position in a build without overflow checks): {}", who, m),
+              );
+            }
+            continue;
+          }
           violations.push(Violation {
             kind: "panic_after_run".into(),
             op_class: TAIL_OPS[k].class().into(),
@@ -708,18 +760,24 @@ pub fn edit_tree(rng: &mut Rng, t: &TreeSpec) -> TreeSpec {
       0 => TreeSpec::SourceMap { text: format!("{}z", text), name: name.clone(), map: map.clone(), inner: inner.clone() },
       1 => TreeSpec::SourceMap { text: text.clone(), name: format!("{}x", name), map: map.clone(), inner: inner.clone() },
       2 => TreeSpec::SourceMap { text: text.clone(), name: name.clone(), map: edit_map(rng, map), inner: inner.clone() },
-      _ => match inner {
-        Some(i) => {
-          let mut i = i.clone();
-          match rng.below(3) {
-            0 => i.remove_original_source = !i.remove_original_source,
-            1 => i.inner_map = edit_map(rng, &i.inner_map),
-            _ => i.original_source = Some(i.original_source.clone().map_or("o".into(), |o| o + "z")),
-          }
-          TreeSpec::SourceMap { text: text.clone(), name: name.clone(), map: map.clone(), inner: Some(i) }
+      _ => {
+        // edit one of the options of the full constructor (also when there
+        // is no inner map: the fields are then unused by every observer)
+        let mut i = inner.clone().unwrap_or(crate::spec::InnerMapSpec {
+          original_source: None,
+          inner_map: None,
+          remove_original_source: false,
+        });
+        match rng.below(3) {
+          0 => i.remove_original_source = !i.remove_original_source,
+          1 => match &i.inner_map {
+            Some(m) => i.inner_map = Some(edit_map(rng, m)),
+            None => i.original_source = Some(i.original_source.clone().map_or("o".into(), |o| o + "z")),
+          },
+          _ => i.original_source = Some(i.original_source.clone().map_or("o".into(), |o| o + "z")),
         }
-        None => TreeSpec::SourceMap { text: text.clone(), name: name.clone(), map: edit_map(rng, map), inner: None },
-      },
+        TreeSpec::SourceMap { text: text.clone(), name: name.clone(), map: map.clone(), inner: Some(i) }
+      }
     },
     TreeSpec::Concat { children, how } => {
       if children.is_empty() || rng.chance(250) {
